@@ -5,7 +5,9 @@
    beyond the text, nothing left open after the last one, no stop marker at index 0. *)
 From AS Require Import Base.
 From AS.Model Require Import Table Ops.
-From AS.Proofs Require Import TableProofs SliceProofs PadProofs.
+From AS Require Import Effects.
+From AS.Model Require Import Sgr Render Scrub Parse FormatSpec.
+From AS.Proofs Require Import TableProofs SliceProofs PadProofs FormatSpecProofs.
 
 (* width not above the length: nothing happens *)
 Theorem C12_noop : forall s width fill ext, (width <= Z.of_nat (length (base s)))%Z ->
@@ -60,6 +62,61 @@ Theorem C12_center : forall (s : astr) (width : Z) (fill : char) (ext : bool),
   /\ wf r.
 Proof. exact center_spec. Qed.
 Print Assumptions C12_center.
+
+(* ---------- the format specification  [string_format[:ansi_format]]  ----------
+   string_format = [[fill][+|-]align][width]; the recognisers of Model/FormatSpec.v stand for the
+   repository's four regular expressions (tied to Python's re by the correspondence check on generated
+   specs; newline-free specs). *)
+
+(* printer / recogniser round trip for every fill character (':', '+', '-', '<', '>', '^' and digits
+   included), flag, alignment and width; the documented reading is greedy: without a fill character a
+   lone +/- before the alignment character IS the fill *)
+Theorem C12_spec_roundtrip : forall fill flag al w, flag_ok flag -> digits w ->
+  parse_string_format (print_sf fill flag al w) =
+  SFok {| sf_fill := greedy_fill fill flag; sf_flag := greedy_flag fill flag; sf_align := al; sf_width := w |}.
+Proof. exact parse_print_sf. Qed.
+Theorem C12_spec_bare_width : forall w, digits w -> parse_string_format w = SFok (bare w).
+Proof. exact parse_string_format_digits. Qed.
+Print Assumptions C12_spec_roundtrip.
+
+(* exactly the grammar is accepted; anything else raises ValueError *)
+Theorem C12_spec_grammar : forall s, (exists f, parse_string_format s = SFok f) <-> in_grammar s.
+Proof. exact parse_string_format_grammar. Qed.
+Theorem C12_spec_error : forall s fmt settings nid,
+  ~ in_grammar fmt -> apply_string_format s fmt settings nid = Err ValueError.
+Proof. exact apply_string_format_outside_grammar. Qed.
+Print Assumptions C12_spec_grammar.
+Print Assumptions C12_spec_error.
+
+(* the second colon: a string_format of the grammar, followed by ':' and any ansi part, is split there
+   - also when the fill character is itself ':' *)
+Theorem C12_spec_split : forall fill flag al w o, flag_ok flag -> digits w ->
+  split_spec (print_sf fill flag al w ++ colon_tail o) = Some (print_sf fill flag al w, o).
+Proof. exact split_spec_print_sf. Qed.
+Theorem C12_spec_split_sound : forall spec p0 o,
+  split_spec spec = Some (p0, o) -> spec = p0 ++ colon_tail o /\ in_grammar p0.
+Proof. exact split_spec_sound. Qed.
+Print Assumptions C12_spec_split.
+
+(* format(s, spec) = padding and apply_formatting on a copy: when extending (no flag or '+') pad first
+   (fill styled like the adjacent character) and apply the ansi part to the whole padded result;
+   with '-' apply the ansi part to the original characters only, then pad without styling the fill *)
+Theorem C12_format : forall s spec p0 o nid, split_spec spec = Some (p0, o) ->
+  exists f, parse_string_format p0 = SFok f /\
+  spec_object s spec nid =
+  if ext_of (sf_flag f)
+  then apply_spec_settings (pad_width (sf_align f) s (sf_width f) (fill_of (sf_fill f)) true) o nid
+  else do (s1, nid1) <- apply_spec_settings s o nid;
+       OK (pad_width (sf_align f) s1 (sf_width f) (fill_of (sf_fill f)) false, nid1).
+Proof. exact spec_object_sem. Qed.
+Theorem C12_format_renders_object : forall s sp optimize reset_start reset_end nid, sp <> [] ->
+  to_str_spec s (Some sp) optimize reset_start reset_end nid =
+  do (obj, _) <- spec_object s sp nid; OK (to_str obj optimize reset_start reset_end).
+Proof. exact to_str_spec_spec_object. Qed.
+Theorem C12_format_error : forall s spec nid, split_spec spec = None -> spec_object s spec nid = Err ValueError.
+Proof. exact spec_object_no_match. Qed.
+Print Assumptions C12_format.
+Print Assumptions C12_format_renders_object.
 
 (* non-vacuity: a value with two overlapping settings satisfies wf, and is padded as stated *)
 Example C12_example :
